@@ -32,7 +32,13 @@ FOR_RULE = ("for-loop expansion (driver forloop): generated Taskfiles whose cmds
             "REAL Executor.CompiledTask / FastCompiledTask; the expanded Cmds / Deps in order are compared in Coq with the "
             "model's expand (agree) and judged by mon_for (declaration order, list order, matrix lexicographic order first "
             "key slowest; a map loop up to the order of its own iterations); a sample is RUN by the real Executor and the "
-            "order of the output lines judged by the same specification. shard 0 enumerates all list / matrix shapes. "
+            "order of the output lines judged by the same specification. Every field of the expanded ast.Cmd / ast.Dep is "
+            "read by reflection (text / callee / vars = body; ignore_error, silent, set, shopt, platforms, defer = "
+            "attributes, generated at random on loop and plain entries; an unknown field is reported) and mon_attrs checks "
+            "that every produced command carries its entry's attributes; the runs include loops whose command "
+            "`echo ..; (exit <item>)` fails in some iteration with ignore_error (suppressed for exactly that iteration, "
+            "everything later runs, Run returns nil) and without (the task stops there, Run returns an error). "
+            "shard 0 enumerates all list / matrix shapes and every loop form x attribute setting. "
             "non-trivial = at least 2 expanded entries; distinct = distinct inputs")
 FOR_ASSUME = ["for-loop model: values are ASCII text (strings.Fields on non-ASCII white space is not modelled); "
               "{{.ITEM.K}} is only used under a matrix loop; matrix keys are distinct (the YAML decoder's ordered map)",
@@ -40,7 +46,8 @@ FOR_ASSUME = ["for-loop model: values are ASCII text (strings.Fields on non-ASCI
               "external permutation, the monitor accepts any order of that loop's own iterations",
               "for: sources / generates: the glob result (fingerprint.Globs) is an oracle list"]
 FOR_DRIVER = dict(name="forloop", n_quick=120, n_thorough=3000, shard=1000,
-                  results={"R_for_agree": "agree", "R_for_mon": "mon", "R_for_map": "mon", "R_for_run": "mon"})
+                  results={"R_for_agree": "agree", "R_for_mon": "mon", "R_for_attrs": "mon", "R_for_map": "mon",
+                           "R_for_run": "mon"})
 
 
 def exec_prop(pid, results, extra=None, n_quick=280, n_thorough=4000, more=(), forloop=False):
@@ -60,16 +67,17 @@ def exec_prop(pid, results, extra=None, n_quick=280, n_thorough=4000, more=(), f
 
 
 PROPS = {
-    "C01": exec_prop("C01", {"R_C01": "mon", "R_waits": "mon"}, more=["Properties/C01deps.v", "Properties/C02seal.v"]),
+    "C01": exec_prop("C01", {"R_C01": "mon", "R_C01d": "mon", "R_waits": "mon"}, more=["Properties/C01deps.v", "Properties/C01defer.v", "Properties/C02seal.v"]),
     "C02": exec_prop("C02", {"R_C02": "mon", "R_calls": "mon", "R_waits": "mon"},
                      more=["Properties/C02calls.v", "Properties/C02seal.v", "Properties/C02for.v"], forloop=True),
-    "C03": exec_prop("C03", {"R_C03": "mon", "R_C03s": "mon", "R_C01": "mon", "R_calls": "mon"},
-                     more=["Properties/C03fail.v", "Properties/C03status.v", "Properties/C02calls.v"]),
-    "C06": exec_prop("C06", {"R_C06": "mon", "R_calls": "mon", "R_waits": "mon"},
+    "C03": exec_prop("C03", {"R_C03": "mon", "R_C03s": "mon", "R_C14x": "mon", "R_C01": "mon", "R_calls": "mon"},
+                     more=["Properties/C03fail.v", "Properties/C03status.v", "Properties/C14x.v", "Properties/C02calls.v",
+                           "Properties/C02for.v"], forloop=True),
+    "C06": exec_prop("C06", {"R_C06": "mon", "R_calls": "mon", "R_waits": "mon"}, extra="whenkeys=1",
                      more=["Properties/C06outcome.v", "Properties/C02calls.v", "Properties/C02seal.v"]),
     "C07": exec_prop("C07", {"R_C07": "mon", "R_eager": "mon"}, extra="cyclic=1,fanout=1", more=["Properties/C07progress.v", "Properties/C07term.v"]),
-    "C13": exec_prop("C13", {"R_C13": "mon", "R_C13s": "mon", "R_calls": "mon", "R_C01": "mon"}, extra="prompts=1",
+    "C13": exec_prop("C13", {"R_C13": "mon", "R_C13s": "mon", "R_calls": "mon", "R_C01": "mon"}, extra="prompts=1,guards=1",
                      more=["Properties/C13status.v", "Properties/C02calls.v", "Properties/C01deps.v"]),
-    "C14": exec_prop("C14", {"R_C14": "mon", "R_C02": "mon", "R_waits": "mon", "R_calls": "mon"},
-                     more=["Properties/C14defer.v", "Properties/C02seal.v", "Properties/C02calls.v"]),
+    "C14": exec_prop("C14", {"R_C14": "mon", "R_C14x": "mon", "R_C01d": "mon", "R_C02": "mon", "R_waits": "mon", "R_calls": "mon"},
+                     more=["Properties/C14defer.v", "Properties/C14x.v", "Properties/C01defer.v", "Properties/C02seal.v", "Properties/C02calls.v"]),
 }
